@@ -152,11 +152,20 @@ class _Hooks:
         import pytenet.mpo as pm
         cap = self.cap
         self.ham, self.og, self.pm = ham, og, pm
-        self.o_loc = ham._local_opchains_to_mpo
-        self.o_fog = pm.MPO.__dict__['from_opgraph']
-        self.o_fa = og.OpGraph.__dict__['from_automaton']
-        self.o_bg, self.o_mvc = og.BipartiteGraph, og.minimum_vertex_cover
+        # private names may be renamed or moved by a harmless refactoring: a hook that cannot be placed is recorded (the tie is then
+        # reported as broken, 'no-failing-input-found'); the implementation still runs and the property is still evaluated
+        missing = cap.setdefault('hook_missing', [])
+        self.o_loc = getattr(ham, '_local_opchains_to_mpo', None)
+        self.o_fog = pm.MPO.__dict__.get('from_opgraph')
+        self.o_fa = og.OpGraph.__dict__.get('from_automaton')
+        self.o_bg, self.o_mvc = getattr(og, 'BipartiteGraph', None), getattr(og, 'minimum_vertex_cover', None)
+        for nm, o in (('hamiltonian._local_opchains_to_mpo', self.o_loc), ('MPO.from_opgraph', self.o_fog), ('OpGraph.from_automaton', self.o_fa),
+                      ('opgraph.BipartiteGraph', self.o_bg), ('opgraph.minimum_vertex_cover', self.o_mvc)):
+            if o is None:
+                missing.append(nm)
         covers = cap.setdefault('covers', [])
+        if self.o_bg is None:
+            self.o_bg = object
 
         def loc(qd, lopchains, size, opmap, oid_identity):
             cap['loc'] = {'qd': [int(x) for x in qd], 'size': int(size), 'idn': int(oid_identity),
@@ -190,17 +199,27 @@ class _Hooks:
             covers.append({'nu': int(graph.num_u), 'nv': int(graph.num_v), 'edges': [list(e) for e in getattr(graph, '_rec_edges', [])],
                            'uc': [int(x) for x in uc], 'vc': [int(x) for x in vc]})
             return uc, vc
-        ham._local_opchains_to_mpo = loc
-        pm.MPO.from_opgraph = classmethod(fog)
-        og.OpGraph.from_automaton = classmethod(fa)
-        og.BipartiteGraph, og.minimum_vertex_cover = RecBG, rec_mvc
+        if 'hamiltonian._local_opchains_to_mpo' not in missing:
+            ham._local_opchains_to_mpo = loc
+        if 'MPO.from_opgraph' not in missing:
+            pm.MPO.from_opgraph = classmethod(fog)
+        if 'OpGraph.from_automaton' not in missing:
+            og.OpGraph.from_automaton = classmethod(fa)
+        if 'opgraph.BipartiteGraph' not in missing and 'opgraph.minimum_vertex_cover' not in missing:
+            og.BipartiteGraph, og.minimum_vertex_cover = RecBG, rec_mvc
+        self._missing = list(missing)
         return self
 
     def __exit__(self, *a):
-        self.ham._local_opchains_to_mpo = self.o_loc
-        self.pm.MPO.from_opgraph = self.o_fog
-        self.og.OpGraph.from_automaton = self.o_fa
-        self.og.BipartiteGraph, self.og.minimum_vertex_cover = self.o_bg, self.o_mvc
+        m = self._missing
+        if 'hamiltonian._local_opchains_to_mpo' not in m:
+            self.ham._local_opchains_to_mpo = self.o_loc
+        if 'MPO.from_opgraph' not in m:
+            self.pm.MPO.from_opgraph = self.o_fog
+        if 'OpGraph.from_automaton' not in m:
+            self.og.OpGraph.from_automaton = self.o_fa
+        if 'opgraph.BipartiteGraph' not in m and 'opgraph.minimum_vertex_cover' not in m:
+            self.og.BipartiteGraph, self.og.minimum_vertex_cover = self.o_bg, self.o_mvc
         return False
 
 
